@@ -99,6 +99,10 @@ func freshDecls() []fresh {
 		{name: "type-referring-to-heir", nodes: func() []*doc.Node {
 			return []*doc.Node{doc.N("TYPE", "@freshref").WithBody("{\n  \"r\": @h\n}")}
 		}, adds: []string{"userTypes/@freshref"}, needs: "@h"},
+		// a fresh URL block that pastes a macro the document already pastes elsewhere
+		{name: "url-pasting-existing-macro", nodes: func() []*doc.Node {
+			return []*doc.Node{doc.N("URL", "/freshitm/{id}").WithParen().WithKids(doc.N("PASTE", "@item"))}
+		}, adds: []string{"interactions/http GET /freshitm/{id}", "tags/@freshitm"}, needs: "macro:@item"},
 		{"url", func() []*doc.Node {
 			return []*doc.Node{doc.N("URL", "/freshurl").WithParen().WithKids(doc.N("POST").WithKids(doc.N("Request", "any"), doc.N("201", "empty")))}
 		}, []string{"interactions/http POST /freshurl", "tags/@freshurl"}, ""},
